@@ -42,6 +42,10 @@ type c04Agent struct {
 
 func runC04(c *core.Ctx) {
 	t := c.T
+	if t.Bias(1, 12, "slow-handler") {
+		runC04SlowHandler(c)
+		return
+	}
 	ka := []time.Duration{100 * time.Millisecond, time.Second}[t.Choose(2, "ka")]
 	dMul := []int{2, 5, 0, -1}[t.Pick([]int{4, 3, 2, 1}, "dmul")] // -1 = leave the default
 	fMul := []int{3, 10, 0}[t.Pick([]int{4, 3, 2}, "fmul")]
